@@ -103,6 +103,12 @@ def judge(ctx, case, res, w):
         if case.get('keep') and r['status'] in ('Equal', 'Different'):
             if r['expected'] != tok or not str(r['actual']).startswith(tok):
                 ctx.violation('kept expected/actual results belong to another recording', dict(ww, expected=r['expected'], actual=r['actual']))
+        for side in ('expected', 'actual'):
+            # whatever verdict: a kept result attached to this comparison must be this recording's own
+            if r[side] is not None and not str(r[side]).startswith(tok):
+                ctx.violation('comparison carries the kept %s result of another recording' % side, dict(ww, value=r[side]))
+        if r['playback_recording_id'] is None and (r['expected'] is not None or r['actual'] is not None):
+            ctx.violation('comparison without a replay carries kept results', dict(ww, expected=r['expected'], actual=r['actual']))
         if not case.get('keep') and (r['expected'] is not None or r['actual'] is not None):
             ctx.violation('results kept although keep_results_in_comparison is off', ww)
     return verdicts
